@@ -500,6 +500,27 @@ m('nil3-import-null-element', 'NIL3', 'DB.ImportCollection', ('json.go',
 			return errors.New("invalid document: null")
 		}
 ''', ''''''))
+m('key11-second-unixnano-site', 'KEY11', 'internal.orderedCodePrimitive/time key', ('internal/code.go',
+   """	actualVal := getEncodeValue(value)
+	if includeType {""", """	actualVal := getEncodeValue(value)
+	if t, isTime := value.(time.Time); isTime {
+		actualVal = uint64(t.UnixNano() / 1000) // microseconds are enough
+	}
+	if includeType {"""))
+m('cod4-second-json-site', 'COD4', 'internal.renameMapKeys/document values', ('internal/encoding.go',
+   """	rt := getElemType(reflect.TypeOf(v))
+	if rt.Kind() != reflect.Struct {
+		return m
+	}""", """	rt := getElemType(reflect.TypeOf(v))
+	if rt.Kind() != reflect.Struct {
+		if b, err := json.Marshal(m); err == nil { // deep copy
+			var c map[string]interface{}
+			if json.Unmarshal(b, &c) == nil {
+				return c
+			}
+		}
+		return m
+	}"""))
 m('guard2-create-before-probe', 'GUARD2', 'DB.CreateCollectionByQuery', ('db.go',
   '''	if !ok {
 		return ErrCollectionNotExist
@@ -516,6 +537,7 @@ m('guard2-create-before-probe', 'GUARD2', 'DB.CreateCollectionByQuery', ('db.go'
 	}
 
 	docs := make([]*d.Document, 0)'''))
+FULL = {'key11-second-unixnano-site': 'C10', 'cod4-second-json-site': 'C18'}
 # reverts of the fix: commits (rule and expected key from known_findings.json)
 ff = json.load(open(os.path.join(os.path.dirname(os.path.abspath(__file__)), '..', 'known_findings.json')))
 
@@ -539,7 +561,12 @@ for name, rule, expect, edits in M:
         b = newsrc.splitlines(keepends=True)
         diff += ''.join(difflib.unified_diff(a, b, 'a/' + f, 'b/' + f))
     open(os.path.join(OUT, name + '.diff'), 'w').write(diff)
-    manifest.append({'name': name, 'rule': rule, 'expect': expect, 'kind': 'edit'})
+    e = {'name': name, 'rule': rule, 'expect': expect, 'kind': 'edit'}
+    if name in FULL:
+        # run the whole property check as well: it must print a VIOLATION line for this construct although
+        # known_findings.json lists another construct of the same rule as a known finding
+        e['full_property'] = FULL[name]
+    manifest.append(e)
 
 for f in ff['findings']:
     if f.get('status') != 'fixed' or not f.get('commit'):
